@@ -447,6 +447,34 @@ impl From<ExecutionError> for ResolveResult {
 
 pub type ResolveResult = Result<Value, ExecutionError>;
 
+fn is_binary_operator(name: &str) -> bool {
+    matches!(
+        name,
+        operators::ADD
+            | operators::SUBSTRACT
+            | operators::DIVIDE
+            | operators::MULTIPLY
+            | operators::MODULO
+            | operators::EQUALS
+            | operators::NOT_EQUALS
+            | operators::LESS
+            | operators::LESS_EQUALS
+            | operators::GREATER
+            | operators::GREATER_EQUALS
+            | operators::IN
+            | operators::LOGICAL_OR
+            | operators::LOGICAL_AND
+            | operators::INDEX
+    )
+}
+
+fn is_unary_operator(name: &str) -> bool {
+    matches!(
+        name,
+        operators::LOGICAL_NOT | operators::NEGATE | operators::NOT_STRICTLY_FALSE
+    )
+}
+
 impl From<Value> for ResolveResult {
     fn from(value: Value) -> Self {
         Ok(value)
@@ -477,7 +505,10 @@ impl Value {
                         Value::resolve(&call.args[2], ctx)
                     };
                 }
-                if call.args.len() == 2 {
+                // Only operators take their operands eagerly. For any other two- or one-argument
+                // call the arguments are resolved once, by the function's own extractors, after
+                // the receiver.
+                if call.args.len() == 2 && is_binary_operator(&call.func_name) {
                     let left = Value::resolve(&call.args[0], ctx)?;
                     match call.func_name.as_str() {
                         operators::ADD => return left + Value::resolve(&call.args[1], ctx)?,
@@ -612,7 +643,7 @@ impl Value {
                         _ => (),
                     }
                 }
-                if call.args.len() == 1 {
+                if call.args.len() == 1 && is_unary_operator(&call.func_name) {
                     let expr = Value::resolve(&call.args[0], ctx)?;
                     match call.func_name.as_str() {
                         operators::LOGICAL_NOT => return Ok(Value::Bool(!expr.to_bool())),
